@@ -1,4 +1,112 @@
-import LecModel
+/-
+  C07 — Fragments follow the fixed 80-byte header + systematic payload wire format.
+
+  (a) `layout`        the struct layout / magic / padding compiled from the tree
+                      (LecGen.Consts, regenerated on every run) equal the golden wire layout;
+  (b) `encode_wire`   every fragment `encode` emits is `Header.bytes h ++ payload` where
+                      `Header.bytes` is the independently written specification serializer,
+                      all k+m fragments have the same length 80 + blocksize, and data
+                      fragment i carries bytes [i*bs,(i+1)*bs) of the input, zero padded;
+  (c) `parse_serialize` reading the fields back at the fixed offsets returns the values
+                      (little-endian, offsets 0,4,8,12,20,21,53,54,55,59,63,67), and bytes
+                      71..79 are zero;
+  (d) purity          `encode` is a function of (environment switch, backend, instance, data)
+                      by construction of the model (no state is threaded through it); the
+                      correspondence check validates that against the C code across histories.
+-/
+import LecProofs.EncodeLemmas
+import LecProofs.ParseLemmas
 import LecGen
 namespace LecProps.C07
+open Lec
+
+/-- (a) the generated C layout is the golden layout. -/
+theorem layout :
+    LecGen.headerLayout = Hdr.layout ∧ LecGen.magic = magicC ∧ LecGen.paddingLen = Hdr.padLen ∧
+    LecGen.chksumBytes = 32 ∧ LecGen.maxChecksumLen = 8 ∧
+    Hdr.layout = [80, 59, 0, 4, 8, 12, 20, 21, 53, 54, 55, 59, 63, 67, 71] ∧ magicC = 0x0b0c5ecc := by
+  decide
+
+theorem specHeader_chkLen (env : Env) (i : Inst) (idx orig bs : Nat) (p : Bytes) :
+    (specHeader env i idx orig bs p).md.chksum.length = 8 := by
+  simp [specHeader, specMeta]
+
+/-- (b) wire format of everything `encode` returns. -/
+theorem encode_wire (env : Env) (be : Backend) (i : Inst) (data : Bytes) (frags : List Bytes)
+    (hbe : EncodeOK be i.k i.m) (hlen : data.length < 2 ^ 31)
+    (h : encode env be i data = .ok frags) :
+    frags.length = i.k + i.m ∧
+    (∀ f ∈ frags, f.length = 80 + blockSize i data.length) ∧
+    (∀ idx (hi : idx < frags.length), ∃ p : Bytes, p.length = blockSize i data.length ∧
+        frags[idx] = (specHeader env i idx data.length (blockSize i data.length) p).bytes ++ p ∧
+        (idx < i.k → p = slice data (blockSize i data.length) idx)) := by
+  obtain ⟨par, hpl, hpe, hf⟩ := encode_spec env be i data frags hbe hlen h
+  generalize blockSize i data.length = bs at *
+  have hlenAll : (splitLoop i.k bs data ++ par).length = i.k + i.m := by
+    simp [splitLoop_length, hpl]
+  have hel : ∀ x ∈ splitLoop i.k bs data ++ par, x.length = bs := by
+    intro x hx
+    rcases List.mem_append.mp hx with h1 | h1
+    · exact splitLoop_elem_length _ _ _ _ h1
+    · exact hpe _ h1
+  refine ⟨by rw [hf]; simpa using hlenAll, ?_, ?_⟩
+  · intro f hfm
+    rw [hf] at hfm
+    obtain ⟨⟨p, idx⟩, hm, rfl⟩ := List.mem_map.mp hfm
+    have hp : p ∈ splitLoop i.k bs data ++ par := by
+      have := List.mem_zipIdx hm
+      simp at this
+      rw [this.2]; exact List.getElem_mem _
+    simp only [specFragment, List.length_append, hel p hp]
+    rw [header_bytes_length _ (specHeader_chkLen env i idx data.length bs p)]
+  · intro idx hi
+    have hi' : idx < (splitLoop i.k bs data ++ par).length := by
+      rw [hf] at hi; simpa using hi
+    refine ⟨(splitLoop i.k bs data ++ par)[idx], hel _ (List.getElem_mem _), ?_, ?_⟩
+    · simp only [hf, List.getElem_map, List.getElem_zipIdx, specFragment, Nat.zero_add]
+    · intro hk
+      rw [List.getElem_append_left (by rw [splitLoop_length]; exact hk)]
+      simp only [splitLoop_eq, List.getElem_map, List.getElem_range]
+
+/-- (c) reading a serialized header at the fixed offsets returns its values. -/
+theorem parse_serialize (h : Header) (hw : h.WF) (p : Bytes) :
+    parseHeader (h.bytes ++ p) = h ∧ h.bytes.length = 80 ∧ fPayload (h.bytes ++ p) = p := by
+  refine ⟨parseHeader_bytes h hw p, header_bytes_length h hw.chkLen, ?_⟩
+  unfold fPayload
+  rw [List.drop_append_of_le_length (by rw [header_bytes_length h hw.chkLen]; decide)]
+  rw [List.drop_of_length_le (by rw [header_bytes_length h hw.chkLen]; decide)]
+  simp
+
+/-- (c') the last nine header bytes are zero padding. -/
+theorem padding_zero (h : Header) (hc : h.md.chksum.length = 8) : h.bytes.drop 71 = zeros 9 := by
+  have h1 : h.bytes = (h.md.bytes ++ le32 h.magic ++ le32 h.libver ++ le32 h.metaCrc) ++ zeros 9 := by
+    simp [Header.bytes, Hdr.padLen]
+  have h2 : (h.md.bytes ++ le32 h.magic ++ le32 h.libver ++ le32 h.metaCrc).length = 71 := by
+    simp [meta_bytes_length h.md hc]
+  rw [h1, List.drop_append_of_le_length (by omega), List.drop_of_length_le (by omega)]
+  simp
+
+/-- the metadata checksum stored at offset 67 covers exactly bytes 0..58. -/
+theorem metadata_crc_covers (env : Env) (i : Inst) (idx orig bs : Nat) (p : Bytes) :
+    (specHeader env i idx orig bs p).metaCrc =
+      crcWrite env.legacy ((specHeader env i idx orig bs p).bytes.take 59) := by
+  have hm : (specHeader env i idx orig bs p).md.bytes.length = 59 :=
+    meta_bytes_length _ (specHeader_chkLen env i idx orig bs p)
+  have : (specHeader env i idx orig bs p).bytes.take 59 = (specHeader env i idx orig bs p).md.bytes := by
+    simp only [Header.bytes, List.append_assoc]
+    rw [List.take_append_of_le_length (by omega), List.take_of_length_le (by omega)]
+  rw [this]; rfl
+
+/-- non-vacuity: a concrete accepted configuration, through the null backend. -/
+example :
+    let i : Inst := { beId := 0, beVer := 0x010000, k := 3, m := 2, w := 32, ct := 2 }
+    ∃ frags, encode { libver := 0x010604, legacy := false } nullBackend i [1, 2, 3, 4, 5, 6, 7] = .ok frags ∧
+      frags.length = 5 ∧ (frags.map List.length) = [84, 84, 84, 84, 84] := by
+  refine ⟨_, rfl, ?_, ?_⟩ <;> decide +kernel
+
+#print axioms layout
+#print axioms encode_wire
+#print axioms parse_serialize
+#print axioms padding_zero
+#print axioms metadata_crc_covers
 end LecProps.C07
